@@ -1658,6 +1658,10 @@ def _encode_multipart(vars, content_type, fout=None):
     def wt(t):
         w(t.encode("utf8"))
 
+    def q(t):
+        # cgi.parse_header() un-escapes \\ and \" inside a quoted parameter value
+        return t.replace("\\", "\\\\").replace('"', '\\"')
+
     CRLF = b"\r\n"
     boundary = _get_multipart_boundary(content_type)
 
@@ -1672,7 +1676,7 @@ def _encode_multipart(vars, content_type, fout=None):
         wt("Content-Disposition: form-data")
 
         if name is not None:
-            wt('; name="%s"' % name)
+            wt('; name="%s"' % q(name))
         filename = None
 
         if getattr(value, "filename", None):
@@ -1684,7 +1688,7 @@ def _encode_multipart(vars, content_type, fout=None):
                 value = value.read()
 
         if filename is not None:
-            wt('; filename="%s"' % filename)
+            wt('; filename="%s"' % q(filename))
             mime_type = mimetypes.guess_type(filename)[0]
         else:
             mime_type = None
